@@ -276,6 +276,10 @@ theorem idft2_get_eq (F : Arr ℂ) (αr αc : ℝ) (M N : ℤ) (shr shc : ℝ) (
 theorem ker_symm (α : ℝ) (m : ℤ) (x u : ℤ) : ker α m m 0 0 x u = ker α m m 0 0 u x := by
   unfold ker; congr 1; push_cast; ring
 
+/-- input and output roles of the centred kernel can be exchanged (used by the inverse transform) -/
+theorem ker_swap (α : ℝ) (m K : ℤ) (x u : ℤ) : ker α K m 0 0 u x = ker α m K 0 0 x u := by
+  unfold ker; congr 1; push_cast; ring
+
 /-- the unitary factor squared on a full period -/
 theorem sqrt_abs_inv_mul_self (K L : ℕ) (hK : 0 < K) (hL : 0 < L) :
     Real.sqrt |(1 / (K : ℝ)) * (1 / (L : ℝ))| * Real.sqrt |(1 / (K : ℝ)) * (1 / (L : ℝ))| = 1 / ((K : ℝ) * L) := by
